@@ -2885,7 +2885,20 @@ class TrackFragmentRunBox(FullBox):
         if moof is None:
             self.options.log.info('%s: Failed to find moof box', self._fullname)
             return
-        mdat = moof.find_peer('mdat')
+        mdat = None
+        if moof.parent is not None:
+            # the media data of this fragment is the mdat box that follows
+            # this moof box, which is not the first one of a file that
+            # holds several fragments
+            found = False
+            for peer in moof.parent.children:
+                if peer is moof:
+                    found = True
+                elif found and peer.atom_type == 'mdat':
+                    mdat = peer
+                    break
+        if mdat is None:
+            mdat = moof.find_peer('mdat')
         if mdat is None:
             self.options.log.info('%s: Failed to find mdat box', self._fullname)
             return
